@@ -5,6 +5,7 @@
 import SSJ.Model.Matcher
 import SSJ.Props.Common
 import SSJ.Proofs.Rows
+import SSJ.Proofs.KeyEq
 import Mathlib.Data.List.Basic
 import Mathlib.Data.List.Nodup
 import Mathlib.Data.List.ProdSigma
@@ -903,14 +904,13 @@ theorem dedup_foldl_length {α : Type} [DecidableEq α] (l acc : List α) :
 theorem nodup_of_dedup_length {α : Type} [DecidableEq α] (l : List α) (h : (dedup l).length = l.length) : l.Nodup :=
   ((dedup_foldl_length l []).2 (by rw [List.length_nil, Nat.zero_add]; exact h)).1
 
-theorem nodup_of_validateKeyAttr (a : String) (f : Frame) (h : validateKeyAttr a f = .ok ()) : (f.col a).Nodup := by
-  unfold validateKeyAttr raiseIf at h
-  dsimp only at h
-  split at h
-  · cases h
-  · next hc =>
-    simp only [Bool.not_eq_true', Bool.not_eq_false, Bool.and_eq_true, beq_iff_eq] at hc
-    exact nodup_of_dedup_length _ hc.1
+/-- a validated key column has no two cells that are equal as Python values (`validate_key_attr` counts
+    `table[key].unique()`), in particular no two equal cells -/
+theorem pyDistinct_of_validateKeyAttr (a : String) (f : Frame) (h : validateKeyAttr a f = .ok ()) :
+    PyDistinct (f.col a) := ((validateKeyAttr_ok_iff a f).1 h).1
+
+theorem nodup_of_validateKeyAttr (a : String) (f : Frame) (h : validateKeyAttr a f = .ok ()) : (f.col a).Nodup :=
+  (pyDistinct_of_validateKeyAttr a f h).nodup
 
 theorem filterMap_ite_eq_filter {α : Type} (p : α → Bool) (l : List α) :
     l.filterMap (fun x => if p x then some x else none) = l.filter p := by
